@@ -68,6 +68,10 @@ Max(a, b) == IF a > b THEN a ELSE b
 Meta(vt, fo) == [vt |-> vt, fo |-> fo]          \* flushOffset counted in index entries
 Both(x) == [vol |-> x, dur |-> x]
 NoMeta == Meta(-1, -1)                          \* metadata file of length 0 (just created)
+TornMeta == Meta(-2, -2)                        \* metadata file that does not decode
+(* length of the file content rlp([version, virtualTail, flushOffset in bytes]) *)
+IntLen(x) == IF x < 128 THEN 1 ELSE IF x < 256 THEN 2 ELSE IF x < 65536 THEN 3 ELSE IF x < 16777216 THEN 4 ELSE 5
+MetaLen(m) == IF m.vt < 0 THEN 0 ELSE 2 + IntLen(m.vt) + IntLen(6 * m.fo)
 NewTable == [idx |-> Both(<<>>), dat |-> <<>>, meta |-> Both(NoMeta), head |-> 0, failed |-> FALSE]
 
 Files(ts)   == DOMAIN ts.dat
@@ -230,6 +234,8 @@ Slip(ts, idx, n, fo, vt, tailId, acc) ==
 
 (* newTable + repair of one table *)
 OpenP(ts) ==
+  IF ts.meta.vol = TornMeta THEN << Fail >>        \* newMetadata: "failed to decode metadata"
+  ELSE
   LET fresh == ts.meta.vol = NoMeta
       m0    == IF fresh THEN Meta(0, 0) ELSE ts.meta.vol
       pM    == IF fresh THEN << WMeta(Meta(0, 0)), SMeta >> ELSE <<>>
@@ -281,7 +287,7 @@ LenRange(a, b) == Min(a, b) .. Max(a, b)
 CrashTable(ts, cut) ==
   [ idx  |-> Both(CutIdx(ts.idx, cut.idx.n, cut.idx.zf)),
     dat  |-> TLCEval([x \in Files(ts) |-> Both(CutDat(ts.dat[x], cut.dat[x].len, cut.dat[x].zf, cut.dat[x].old))]),
-    meta |-> Both(IF cut.meta = "old" THEN ts.meta.dur ELSE ts.meta.vol),
+    meta |-> Both(IF cut.meta = "old" THEN ts.meta.dur ELSE IF cut.meta = "torn" THEN TornMeta ELSE ts.meta.vol),
     head |-> 0, failed |-> FALSE ]
 
 Related(f) == IsPrefix(f.dur, f.vol) \/ IsPrefix(f.vol, f.dur)
@@ -291,7 +297,8 @@ DatOpts(ts, x) ==
 CutsOf(ts) ==
   [ idx  : [n : LenRange(Len(ts.idx.dur), Len(ts.idx.vol)), zf : BOOLEAN],
     dat  : {d \in [Files(ts) -> UNION {DatOpts(ts, x) : x \in Files(ts)}] : \A x \in Files(ts) : d[x] \in DatOpts(ts, x)},
-    meta : {"old", "new"} ]
+    \* the rewrite happens in place: old or new - or, when the encoding grew, the new bytes at the old length
+    meta : {"old", "new"} \cup (IF MetaLen(ts.meta.vol) > MetaLen(ts.meta.dur) /\ MetaLen(ts.meta.dur) > 0 THEN {"torn"} ELSE {}) ]
 
 (* ------------------------------------------------------------------------------------- *)
 (* the freezer: tables + the running call                                                  *)
@@ -464,7 +471,10 @@ NeverFails == ~FailedOf(tab)
 (* fast-forwards it with truncateTail and then panics on its non-zero tail.                            *)
 KnownF1(tb) == \E t, u \in Tables : tb[t].failed /\ Hidden(tb[t]) > Items(tb[u])   \* u = t: EOF; u # t: "truncation below tail"
 KnownF2(tb) == \E t \in Tables : tb[t].failed /\ GroupOf[t] = "" /\ Hidden(tb[t]) # 0
-FailsOnlyKnown == FailedOf(tab) => KnownF1(tab) \/ KnownF2(tab)
+(* F3: the metadata rewrite is not atomic when its RLP encoding grows by a byte (a value reaches 2^7,  *)
+(* 2^8, 2^16 ...): the new bytes at the old length do not decode and newMetadata gives up.              *)
+KnownF3(tb) == \E t \in Tables : tb[t].failed /\ tb[t].meta.vol = TornMeta
+FailsOnlyKnown == FailedOf(tab) => KnownF3(tab) \/ KnownF1(tab) \/ KnownF2(tab)
 Aligned == Settled => AlignedOf(tab)
 ReadableCorrect == Settled => ReadableCorrectOf(tab, g)
 Durable == Settled => DurableOf(tab, g)
